@@ -1,7 +1,7 @@
 /-
   Homogenisation as the sparse solvers do it (lib/gnu_gama/adj/homogenization.h,
-  `BlockDiagonal::cholDec` and `UpperBlockDiagonal` of lib/gnu_gama/sparse/sbdiagonal.h),
-  restated on dense blocks; core Lean only.
+  `BlockDiagonal::cholDec` and `UpperBlockDiagonal` of lib/gnu_gama/sparse/sbdiagonal.h);
+  core Lean only.
 
   `BlockDiagonal::cholDec(tol = 1e-14)` : per block, row by row, right looking:
       `if ((pivot = *B) < tol) return block;`            (not positive definite)
@@ -12,6 +12,17 @@
   matrix with the rows of `U` (`x = v(i)/U(i,i); v(i) = x; v(i+t) -= U(i,i+t)*x`), i.e.
   `ṽ = U⁻ᵀ v`.
 
+  Both kernels are the ones of property C10 (`Gama/Model/BandChol.lean`: `Cov.bdCholBlock` — the
+  C++ pointer walk over the packed band storage — and `Cov.sweep`), so that ONE model of
+  `BlockDiagonal::cholDec` / `Homogenization::run` is executed next to the C++ by C10 and by the
+  solver checks (C01/C02/C03/C20), and the C10 theorems (`Lemmas/CovBd.lean`:
+  `bdCholBlock_reproduces`, `sweep_spec`) apply to what `envSolve` runs
+  (`Lemmas/Ls/ComposeHomog.lean`: `homogenize_spec`).
+
+  A covariance block `(dim, width, v)` of the problem IS the packed `CovMat(dim, width)` buffer
+  (`blockMat`).  The sweep touches, for every block, only the segment `off … off+dim-1` of the
+  vector; `homVec` states that per component (block `locate`d by its row).
+
   `Homogenization::run` ignores the non-zero return value of `cholDec` (a block that is not
   positive definite is used half-factored).  That path belongs to property C10
   (notes/proposed/C10-homogenization-nonpd.diff); here it is `NotModelled`.
@@ -20,49 +31,59 @@
   elements for uncorrelated blocks and overwrites for correlated ones).
 -/
 import Gama.Model.Ls.Env.Core
+import Gama.Model.BandChol
 namespace Gama.Ls.Env
 variable {K : Type} [Scalar K]
 
 /-- `1e-14` -/
 def bdTol : K := Scalar.ofSci 1 true 14
 
-/-- dense upper triangle of one block (`dim × dim`, zero outside the band) -/
-def blockDense (b : CovBlock K) : DMat K := Id.run do
-  let mut C : DMat K := Array.replicate b.dim (Array.replicate b.dim 0)
-  let mut k := 0
-  for r in [0:b.dim] do
-    for j in [r:min b.dim (r + b.width + 1)] do
-      C := C.modify r (·.setIfInBounds j (b.v.getD k 0))
-      k := k + 1
-  return C
+/-- the covariance block as `BlockDiagonal` stores it: a packed `CovMat(dim, width)` buffer -/
+def blockMat (b : CovBlock K) : Cov.CovMat K := ⟨b.dim, b.width, b.v⟩
 
-/-- `BlockDiagonal::cholDec` on one block; `none` = `return block` -/
-def blockChol (tol : K) (dim width : Nat) (C0 : DMat K) : Option (DMat K) := Id.run do
-  let mut C := C0
-  for r in [0:dim] do
-    let pivot := mget C r r
-    if pivot < tol then return none
-    let k := min width (dim - 1 - r)
-    for n in [1:k+1] do
-      let q := mget C r (r + n) / pivot
-      for l in [n:k+1] do
-        C := C.modify (r + n) (fun row => row.setIfInBounds (r + l) (vget row (r + l) - q * mget C r (r + l)))
-    let s := Scalar.sqrt pivot
-    C := C.modify r (·.setIfInBounds r s)
-    for j in [1:k+1] do
-      C := C.modify r (fun row => row.setIfInBounds (r + j) (vget row (r + j) / s))
-  return some C
+/-- `BlockDiagonal::cholDec(1e-14)` : every block in order; `none` = some block was rejected
+    (`return block`) -/
+def factorsU : List (CovBlock K) → Option (List (Cov.CovMat K))
+  | [] => some []
+  | b :: bs =>
+    match Cov.bdCholBlock bdTol (blockMat b) with
+    | .error _ => none
+    | .ok F =>
+      match factorsU bs with
+      | none => none
+      | some Fs => some (F :: Fs)
 
-/-- forward substitution of `Homogenization::run` on the segment `off … off+dim-1` of `v` -/
-def sweep (U : DMat K) (dim width off : Nat) (v0 : Array K) : Array K := Id.run do
-  let mut v := v0
-  for i in [0:dim] do
-    let x := vget v (off + i) / mget U i i
-    v := v.setIfInBounds (off + i) x
-    let k := min width (dim - 1 - i)
-    for t in [1:k+1] do
-      v := v.setIfInBounds (off + i + t) (vget v (off + i + t) - mget U i (i + t) * x)
-  return v
+/-- block index and offset of the observation `s` (0-based) for the block dimensions `dims` -/
+def locate : List Nat → Nat → Nat × Nat
+  | [], _ => (0, 0)
+  | d :: ds, s => if s < d then (0, 0) else ((locate ds (s - d)).1 + 1, (locate ds (s - d)).2 + d)
+
+/-- forward substitution of `Homogenization::run` on a whole vector `v` of length `m`: within the
+    block (offset `r`, dimension `d`, factor `F`) that contains row `s`, the result is
+    `sweep F (v(r) … v(r+d-1))` -/
+def homVec (dims : List Nat) (Fs : List (Cov.CovMat K)) (m : Nat) (v : Nat → K) : Array K :=
+  vecOf m fun s =>
+    let kr := locate dims s
+    let d := dims.getD kr.1 0
+    vget (Cov.sweep (Fs.getD kr.1 ⟨0, 0, #[]⟩) (vecOf d fun i => v (kr.2 + i))) (s - kr.2)
+
+/-- columns that occur in the rows of one block, in order of first appearance -/
+def occOf (rows : List (Array (Nat × K))) : List Nat :=
+  rows.foldl (fun occ r => r.foldl (fun occ e => if occ.contains e.1 then occ else occ ++ [e.1]) occ) []
+
+/-- column pattern of the homogenised sparse rows of one block: an uncorrelated block keeps the
+    pattern of each row; a correlated block gets, in every row, the columns that occur anywhere in
+    the block and whose homogenised value is non-zero -/
+def blockPat (p : Problem K) (At : DMat K) (off : Nat) (blk : CovBlock K) : List (List Nat) :=
+  if blk.width == 0 then
+    (List.range blk.dim).map fun i => (p.rows.getD (off + i) #[]).toList.map (·.1)
+  else
+    let occ := occOf ((List.range blk.dim).map fun i => p.rows.getD (off + i) #[])
+    (List.range blk.dim).map fun i => occ.filter fun c => !(Scalar.beq (mget At (off + i) (c - 1)) 0)
+
+def patOf (p : Problem K) (At : DMat K) : List (CovBlock K) → Nat → List (List Nat)
+  | [], _ => []
+  | b :: bs, off => blockPat p At off b ++ patOf p At bs (off + b.dim)
 
 structure Homog (K : Type) where
   /-- homogenised design matrix, dense `m × n` -/
@@ -73,33 +94,15 @@ structure Homog (K : Type) where
   pat : Array (List Nat)
 
 /-- `Homogenization::run` -/
-def homogenize (p : Problem K) : Except ErrKind (Homog K) := Id.run do
-  let A := p.dense
-  let n := p.n
-  -- columns of A as vectors of length m
-  let mut cols : Array (Array K) := Array.ofFn (n := n) fun j => Array.ofFn (n := p.m) fun i => mget A i.1 j.1
-  let mut bt := p.rhs
-  let mut pat : Array (List Nat) := #[]
-  let mut off := 0
-  for blk in p.cov do
-    match blockChol bdTol blk.dim blk.width (blockDense blk) with
-    | none => return .error .NotModelled
-    | some U =>
-      bt := sweep U blk.dim blk.width off bt
-      cols := cols.map fun c => sweep U blk.dim blk.width off c
-      if blk.width == 0 then
-        for i in [0:blk.dim] do
-          pat := pat.push ((p.rows.getD (off + i) #[]).toList.map (·.1))
-      else
-        -- columns that occur in the block, in order of first appearance
-        let mut occ : List Nat := []
-        for i in [0:blk.dim] do
-          for e in p.rows.getD (off + i) #[] do
-            if !occ.contains e.1 then occ := occ ++ [e.1]
-        for i in [0:blk.dim] do
-          pat := pat.push (occ.filter fun c => !(Scalar.beq (vget (cols.getD (c - 1) #[]) (off + i)) 0))
-      off := off + blk.dim
-  let At : DMat K := Array.ofFn (n := p.m) fun i => Array.ofFn (n := n) fun j => vget (cols.getD j.1 #[]) i.1
-  return .ok { At := At, bt := bt, pat := pat }
+def homogenize (p : Problem K) : Except ErrKind (Homog K) :=
+  match factorsU p.cov.toList with
+  | none => .error .NotModelled
+  | some Fs =>
+    let A := p.dense
+    let dims := p.cov.toList.map (·.dim)
+    -- homogenised columns of A (vectors of length m)
+    let cols : Array (Array K) := Array.ofFn (n := p.n) fun j => homVec dims Fs p.m (fun i => mget A i j.1)
+    let At : DMat K := Array.ofFn (n := p.m) fun i => Array.ofFn (n := p.n) fun j => vget (cols.getD j.1 #[]) i.1
+    .ok { At := At, bt := homVec dims Fs p.m (vget p.rhs), pat := (patOf p At p.cov.toList 0).toArray }
 
 end Gama.Ls.Env
